@@ -226,6 +226,7 @@ func runProp(prop string) int {
 		}
 	}
 	ruleHits := map[string]int{}
+	definesUsed := map[string]bool{}
 	for _, fn := range order {
 		con := todo[fn]
 		if *flagFunc != "" && !strings.Contains(fn.String(), *flagFunc) {
@@ -287,6 +288,9 @@ func runProp(prop string) int {
 		for d := range c.usedDeps {
 			rr.deps[d] = true
 		}
+		for d := range c.definesUsed {
+			definesUsed[d] = true
+		}
 		var cl []string
 		for k := range classes {
 			cl = append(cl, k)
@@ -296,7 +300,7 @@ func runProp(prop string) int {
 	}
 	// rule coverage: every rule must have matched at least one call site
 	for _, r := range rules {
-		if ruleHits[r.Name] == 0 {
+		if ruleHits[r.Name] == 0 && *flagFunc == "" {
 			fmt.Printf("BROKEN-CHECK callrule %s matched no call site (vacuous)\n", r.Name)
 			return 2
 		}
@@ -489,6 +493,12 @@ func runProp(prop string) int {
 		}
 	}
 	assumed = append(assumed, ifaceAssumed...)
+	var dl []string
+	for d := range definesUsed {
+		dl = append(dl, "definitional ghost link (assumed at call sites, not proved in the body): "+d)
+	}
+	sort.Strings(dl)
+	assumed = append(assumed, dl...)
 	assumed = append(assumed, cfg.Assume...)
 	trusted := append([]string{"go/packages+go/types+go/ssa (x/tools v0.50.0): SSA taken as the meaning of the source", "govc VC generator and memory model (/verif/govc)", "SMT solvers z3 4.8.12, z3 5.1.0, cvc5 1.0.3", "sequential execution of one invocation (goroutines, channels, locks not modelled)"}, cfg.Trusted...)
 	ev := map[string]any{
